@@ -5,6 +5,7 @@ package main
 // loops are cut at their headers.
 
 import (
+	"os"
 	"fmt"
 	"go/ast"
 	"go/token"
@@ -92,6 +93,9 @@ type FnCtx struct {
 	cells      map[string]SV // captured variables (closure units): name -> pointer to the variable
 	ghostVars  map[string]GhostVar
 	alias      map[string]string // contract name -> actual variable name (renamed variables)
+	flatOrd    map[string]int   // root only: ordinal of every anchorable call, helpers that get inlined included
+	flatLoop   map[string]int   // root only: ordinal of every loop, loops of inlined helpers included
+	inlinePath []ssa.Instruction // for an inlined helper: the chain of call instructions that led here
 	lastGhost  map[string]SV // ghost results of the most recent contracted call
 	preDefer   *State
 	modTargets []modTarget // evaluated modifies clause (unit only)
@@ -555,8 +559,17 @@ func (fc *FnCtx) cutLoop(h *ssa.BasicBlock, st *State) *State {
 		}
 	}
 	li := &loopInfo{header: h, ord: fc.loopOrd[h], body: body}
-	if fc.contract != nil {
+	if fc.contract != nil && fc.parent != nil {
 		li.spec = fc.contract.Loops[li.ord]
+	} else if fc.contract != nil {
+		li.spec = fc.contract.Loops[fc.flatLoopOrdOf(h)]
+	} else if root := fc.unitCtx(); root != fc && root.contract != nil && len(fc.inlinePath) > 0 && len(root.contract.Loops) > 0 {
+		// a loop inside an uncontracted helper inlined into the unit: `loop#k` of the
+		// unit's contract counts it where the helper is called
+		li.spec = root.contract.Loops[fc.flatLoopOrdOf(h)]
+		if li.spec != nil && os.Getenv("CBV_DEBUG_FLAT") != "" {
+			fmt.Fprintf(os.Stderr, "FLAT: loop of inlined %s takes loop#%d of %s\n", fc.name, fc.flatLoopOrdOf(h), root.name)
+		}
 	}
 
 	// 1. dry run: which heap columns can an iteration modify?
@@ -886,4 +899,261 @@ func (fc *FnCtx) smallConsts() []int64 {
 	}
 	sort.Slice(out, func(i, j int) bool { return out[i] < out[j] })
 	return out
+}
+
+// ---- anchors through inlined helpers ----
+//
+// `at call NAME#k` counts the calls named NAME in source order. A call that sits in
+// an uncontracted helper is counted where the helper is called, as if the helper's
+// body stood there, so that extracting a few lines into a helper (or inlining a
+// tiny helper) does not renumber anything.
+
+func pathKey(path []ssa.Instruction, in ssa.Instruction) string {
+	var sb strings.Builder
+	for _, p := range path {
+		fmt.Fprintf(&sb, "%p/", p)
+	}
+	fmt.Fprintf(&sb, "%p", in)
+	return sb.String()
+}
+
+// sortedCalls: the call instructions of the function in source order.
+func (fc *FnCtx) sortedCalls() []ssa.Instruction {
+	type ci struct {
+		in  ssa.Instruction
+		pos token.Pos
+		idx int
+	}
+	var l []ci
+	k := 0
+	for _, b := range fc.fn.Blocks {
+		for _, in := range b.Instrs {
+			k++
+			if _, ok := in.(ssa.CallInstruction); ok {
+				l = append(l, ci{in, in.Pos(), k})
+			}
+		}
+	}
+	sort.SliceStable(l, func(i, j int) bool {
+		a, b := l[i], l[j]
+		if a.pos != b.pos && a.pos.IsValid() && b.pos.IsValid() {
+			return a.pos < b.pos
+		}
+		return a.idx < b.idx
+	})
+	out := make([]ssa.Instruction, len(l))
+	for i, c := range l {
+		out[i] = c.in
+	}
+	return out
+}
+
+func (fc *FnCtx) inlinable(c *ssa.CallCommon) *ssa.Function {
+	if c.IsInvoke() {
+		return nil
+	}
+	callee, ok := c.Value.(*ssa.Function)
+	if !ok {
+		return nil
+	}
+	e := fc.e
+	if callee.Origin() != nil {
+		callee = callee.Origin()
+	}
+	if callee.Pkg != e.spkg || callee.Blocks == nil {
+		return nil
+	}
+	name := e.shortName(callee)
+	if _, known := e.funcs[name]; !known {
+		return nil
+	}
+	if ct := e.spec.Contracts[name]; ct != nil {
+		// a callee with a contract of its own (even one that only annotates its loops
+		// or call sites) numbers its loops and calls itself
+		return nil
+	}
+	return callee
+}
+
+func (fc *FnCtx) buildFlatOrd() {
+	fc.flatOrd = map[string]int{}
+	counts := map[string]int{}
+	var walk func(c *FnCtx, path []ssa.Instruction, depth int, stack []*ssa.Function)
+	walk = func(c *FnCtx, path []ssa.Instruction, depth int, stack []*ssa.Function) {
+		for _, in := range c.sortedCalls() {
+			name := c.callName[in]
+			fc.flatOrd[pathKey(path, in)] = counts[name]
+			counts[name]++
+			if _, isGo := in.(*ssa.Go); isGo {
+				continue
+			}
+			callee := c.inlinable(in.(ssa.CallInstruction).Common())
+			if callee == nil || depth >= maxInlineDepth {
+				continue
+			}
+			rec := false
+			for _, s := range stack {
+				if s == callee {
+					rec = true
+				}
+			}
+			if rec {
+				continue
+			}
+			sub := newFnCtx(fc.vc, callee, c)
+			walk(sub, append(append([]ssa.Instruction{}, path...), in), depth+1, append(stack, callee))
+		}
+	}
+	walk(fc, nil, 0, []*ssa.Function{fc.fn})
+}
+
+// ordOf: the ordinal used by at-call anchors for this call instruction.
+func (fc *FnCtx) ordOf(instr ssa.Instruction) int {
+	root := fc.unitCtx()
+	if root.contract == nil {
+		return fc.callOrd[instr]
+	}
+	if root.flatOrd == nil {
+		root.buildFlatOrd()
+	}
+	if o, ok := root.flatOrd[pathKey(fc.inlinePath, instr)]; ok {
+		return o
+	}
+	if fc != root && fc.contract == nil {
+		return -2 // inside a helper the flat numbering does not know: matches no anchor
+	}
+	return fc.callOrd[instr]
+}
+
+// ---- loop ordinals through inlined helpers ----
+
+func loopKey(path []ssa.Instruction, h *ssa.BasicBlock) string {
+	var sb strings.Builder
+	for _, p := range path {
+		fmt.Fprintf(&sb, "%p/", p)
+	}
+	fmt.Fprintf(&sb, "%p", h)
+	return sb.String()
+}
+
+func blockPos(b *ssa.BasicBlock) token.Pos {
+	best := token.NoPos
+	for _, in := range b.Instrs {
+		if p := in.Pos(); p.IsValid() && (!best.IsValid() || p < best) {
+			best = p
+		}
+	}
+	return best
+}
+
+func (fc *FnCtx) buildFlatLoop() {
+	fc.flatLoop = map[string]int{}
+	n := 0
+	var walk func(c *FnCtx, path []ssa.Instruction, depth int, stack []*ssa.Function)
+	walk = func(c *FnCtx, path []ssa.Instruction, depth int, stack []*ssa.Function) {
+		type ev struct {
+			pos  token.Pos
+			idx  int
+			h    *ssa.BasicBlock
+			call ssa.Instruction
+		}
+		var evs []ev
+		var hs []*ssa.BasicBlock
+		for h := range c.loopOrd {
+			hs = append(hs, h)
+		}
+		sort.Slice(hs, func(i, j int) bool { return c.loopOrd[hs[i]] < c.loopOrd[hs[j]] })
+		// loops keep their own relative order (block index); their position is that of
+		// the first positioned instruction of the header or, failing that, of the body
+		lastPos := token.NoPos
+		for _, h := range hs {
+			p := blockPos(h)
+			if !p.IsValid() {
+				for _, su := range h.Succs {
+					if q := blockPos(su); q.IsValid() && (!p.IsValid() || q < p) {
+						p = q
+					}
+				}
+			}
+			if lastPos.IsValid() && (!p.IsValid() || p < lastPos) {
+				p = lastPos
+			}
+			lastPos = p
+			evs = append(evs, ev{pos: p, idx: c.loopOrd[h], h: h})
+		}
+		hasSpecLoops := false
+		for _, in := range c.sortedCalls() {
+			if _, isGo := in.(*ssa.Go); isGo {
+				continue
+			}
+			callee := c.inlinable(in.(ssa.CallInstruction).Common())
+			if callee == nil || depth >= maxInlineDepth {
+				continue
+			}
+			rec := false
+			for _, st := range stack {
+				if st == callee {
+					rec = true
+				}
+			}
+			if rec {
+				continue
+			}
+			evs = append(evs, ev{pos: in.Pos(), idx: 1 << 20, call: in})
+			hasSpecLoops = true
+		}
+		_ = hasSpecLoops
+		sort.SliceStable(evs, func(i, j int) bool {
+			a, b := evs[i], evs[j]
+			if a.h != nil && b.h != nil {
+				return a.idx < b.idx
+			}
+			if a.pos != b.pos {
+				return a.pos < b.pos
+			}
+			return a.idx < b.idx
+		})
+		for _, e := range evs {
+			if e.h != nil {
+				fc.flatLoop[loopKey(path, e.h)] = n
+				n++
+				continue
+			}
+			callee := c.inlinable(e.call.(ssa.CallInstruction).Common())
+			sub := newFnCtx(fc.vc, callee, c)
+			if len(sub.loopOrd) == 0 && !hasCalls(callee) {
+				continue
+			}
+			walk(sub, append(append([]ssa.Instruction{}, path...), e.call), depth+1, append(stack, callee))
+		}
+	}
+	walk(fc, nil, 0, []*ssa.Function{fc.fn})
+}
+
+func hasCalls(fn *ssa.Function) bool {
+	for _, b := range fn.Blocks {
+		for _, in := range b.Instrs {
+			if _, ok := in.(ssa.CallInstruction); ok {
+				return true
+			}
+		}
+	}
+	return false
+}
+
+func (fc *FnCtx) flatLoopOrdOf(h *ssa.BasicBlock) int {
+	root := fc.unitCtx()
+	if root.contract == nil {
+		return fc.loopOrd[h]
+	}
+	if root.flatLoop == nil {
+		root.buildFlatLoop()
+	}
+	if o, ok := root.flatLoop[loopKey(fc.inlinePath, h)]; ok {
+		return o
+	}
+	if fc != root {
+		return -1 // a helper the flat numbering does not know (closure values): no declared loop applies
+	}
+	return fc.loopOrd[h]
 }
